@@ -29,7 +29,10 @@ OBLIGATIONS = [
          redirect={'_ZL13parse_commentR12TokenContextR5Chunk': 'vp_stub_parse_comment'},
          assumptions=COMMON['assumptions'] + ['enable marker set to the one-character text "@"; the line contains no "/" and no "#"']),
 ]
+OBLIGATIONS.append(dict(COMMON, id='TOK-STR', entry='vp_tok_str', instances=n_instances(1, 4, 6), extra_tus=TUS + ['punctuators.cpp', 'keywords.cpp', 'language_tools.cpp'],
+                        assumptions=COMMON['assumptions'] + ['string_replace_tab_chars=false (premise of C03)']))
 PROPERTIES = {
+    'C03': dict(obligations=['TOK-STR'], not_decided='comments (parse_comment and the comment writers output_comment_*), raw strings / C# / D strings, the literal writer (add_text with is_literal).'),
     'C07': dict(obligations=['TOK-IGN'], not_decided='that every later pass skips CT_IGNORED chunks; regex markers; the writer side (OUT-IGN).'),
     'C08': dict(obligations=['TOK-WS', 'TOK-NL', 'TOK-BSNL', 'TOK-IGN']),
     'C02': dict(obligations=['TOK-WS', 'TOK-NL', 'TOK-BSNL'], not_decided='the ~40 passes between tokenizer and output.'),
